@@ -114,6 +114,7 @@ func init() {
 			o.IfaceContainers = true
 			o.FixedZone = false
 			avoidVal(o, "S4-edge-iterator-no-end", "S3-bool-slice-packing", "S44-float32-snan-quieted")
+			o.YearZero = true
 			c := &C05Case{ValCase: *genValCase(t, ctx, o)}
 			c.Records = rapid.IntRange(0, 2).Draw(t, "records") == 0
 			c.Recursion = rapid.Bool().Draw(t, "recursion")
@@ -137,6 +138,40 @@ func init() {
 			ctx.LabelIf(c.Recursion, "recursion-support")
 			ctx.Label("omit:" + c.Omit)
 			value := gen.Build(c.Type, c.Val).Interface()
+			if hasYearZero(c.Val) {
+				// Go's year 0 has no counterpart in the format: the marshaler may refuse the value, but whatever it
+				// does emit without complaint must still be a valid stream / a document that decodes
+				ctx.Label("a time in year 0 (refused, or valid events)")
+				raw := ev.NewRecorder()
+				o := ctx.Guard(func() { iterator.NewSession(nil, cfg).NewIterator(raw).Iterate(value) })
+				if o.TimedOut {
+					return fmt.Errorf("iterator: %v", o)
+				}
+				if o.Panic == nil {
+					if idx, rerr := rulesAccept(raw.Events, cfg); idx >= 0 {
+						return fmt.Errorf("the marshaler emitted, without complaint, event %d (%v) which the validator rejects: %v\ntype=%v", idx, raw.Events[idx], rerr, c.Type)
+					}
+				}
+				for _, format := range []string{"cbe", "cte"} {
+					doc, err, bad := marshalDoc(ctx, format, value, cfg)
+					if bad != nil {
+						return bad
+					}
+					if err != nil {
+						continue
+					}
+					var derr error
+					if format == "cbe" {
+						_, derr = decodeCBE(doc, cfg)
+					} else {
+						_, derr = decodeCTE(doc, cfg)
+					}
+					if derr != nil {
+						return fmt.Errorf("the %s document the marshaler produced without an error does not decode: %v\ndoc=%s\ntype=%v", format, derr, docdump(format, doc), c.Type)
+					}
+				}
+				return nil
+			}
 			rec := ev.NewRecorder()
 			rules := ce.NewRules(rec, cfg)
 			o := ctx.Guard(func() {
